@@ -27,6 +27,18 @@ type Shape struct {
 	Name  string
 	DBRPs []kapacitor.DBRP
 	Froms []From
+	// Dies: the first chain ends in an httpOut node whose route the HTTP service
+	// refuses, so the node fails as soon as it runs; with the next few points the
+	// failure travels up the pipeline until the source node aborts the task's fork
+	// edge.  The task stays registered ("executing") until somebody stops it.
+	Dies bool
+}
+
+// dying returns the shape as a task that dies at run time.
+func (s Shape) dying() Shape {
+	s.Dies = true
+	s.Name += "+dies"
+	return s
 }
 
 var (
@@ -38,22 +50,33 @@ var (
 
 const defaultRP = "rp1"
 
+// dieEndpoint: routes ending in it are refused by the World's HTTP service.
+const dieEndpoint = "c02die"
+
+// The two dying neighbours of the targeted histories subscribe to every dbrp,
+// once under the empty-measurement key and once under the measurement keys, so
+// that every catalogue shape shares a fork key (the same inner map) with one of them.
+var dyingShapes = []Shape{
+	Shape{Name: "dieall", DBRPs: []kapacitor.DBRP{dA, dB, dC, dD}, Froms: []From{{}}}.dying(),
+	Shape{Name: "diemeas", DBRPs: []kapacitor.DBRP{dA, dB, dC, dD}, Froms: []From{{Meas: "m1"}, {Meas: "m2"}}}.dying(),
+}
+
 // The catalogue: the shapes of spec/Routing/RoutingMC.tla plus variants over
 // dbrps that differ in only one component.
 var catalogue = []Shape{
-	{"all", []kapacitor.DBRP{dA}, []From{{}}},
-	{"m1", []kapacitor.DBRP{dA}, []From{{Meas: "m1"}}},
-	{"db", []kapacitor.DBRP{dA, dB}, []From{{DB: "d2"}}},
-	{"rp", []kapacitor.DBRP{dA, dC}, []From{{RP: "rp2"}}},
-	{"rpm", []kapacitor.DBRP{dA, dB}, []From{{Meas: "m2", RP: "rp1"}}},
-	{"pred", []kapacitor.DBRP{dA}, []From{{Pred: "a"}}},
-	{"two", []kapacitor.DBRP{dA}, []From{{Meas: "m1"}, {}}},
-	{"two2", []kapacitor.DBRP{dA, dB}, []From{{Meas: "m1", DB: "d1"}, {Meas: "m2", Pred: "b"}}},
-	{"other", []kapacitor.DBRP{dB}, []From{{}}},
-	{"three", []kapacitor.DBRP{dA, dC}, []From{{Meas: "m1", RP: "rp2"}, {}, {Meas: "m1"}}},
-	{"gb", []kapacitor.DBRP{dC}, []From{{GB: true}, {Meas: "m2", GB: true, Pred: "b"}}},
-	{"dbC", []kapacitor.DBRP{dC, dD}, []From{{Meas: "m1", DB: "d1"}, {DB: "d2"}}},
-	{"dbrp", []kapacitor.DBRP{dA, dC, dD}, []From{{DB: "d1", RP: "rp2"}, {Meas: "m2", DB: "d2", RP: "rp1", Pred: "a"}}},
+	{Name: "all", DBRPs: []kapacitor.DBRP{dA}, Froms: []From{{}}},
+	{Name: "m1", DBRPs: []kapacitor.DBRP{dA}, Froms: []From{{Meas: "m1"}}},
+	{Name: "db", DBRPs: []kapacitor.DBRP{dA, dB}, Froms: []From{{DB: "d2"}}},
+	{Name: "rp", DBRPs: []kapacitor.DBRP{dA, dC}, Froms: []From{{RP: "rp2"}}},
+	{Name: "rpm", DBRPs: []kapacitor.DBRP{dA, dB}, Froms: []From{{Meas: "m2", RP: "rp1"}}},
+	{Name: "pred", DBRPs: []kapacitor.DBRP{dA}, Froms: []From{{Pred: "a"}}},
+	{Name: "two", DBRPs: []kapacitor.DBRP{dA}, Froms: []From{{Meas: "m1"}, {}}},
+	{Name: "two2", DBRPs: []kapacitor.DBRP{dA, dB}, Froms: []From{{Meas: "m1", DB: "d1"}, {Meas: "m2", Pred: "b"}}},
+	{Name: "other", DBRPs: []kapacitor.DBRP{dB}, Froms: []From{{}}},
+	{Name: "three", DBRPs: []kapacitor.DBRP{dA, dC}, Froms: []From{{Meas: "m1", RP: "rp2"}, {}, {Meas: "m1"}}},
+	{Name: "gb", DBRPs: []kapacitor.DBRP{dC}, Froms: []From{{GB: true}, {Meas: "m2", GB: true, Pred: "b"}}},
+	{Name: "dbC", DBRPs: []kapacitor.DBRP{dC, dD}, Froms: []From{{Meas: "m1", DB: "d1"}, {DB: "d2"}}},
+	{Name: "dbrp", DBRPs: []kapacitor.DBRP{dA, dC, dD}, Froms: []From{{DB: "d1", RP: "rp2"}, {Meas: "m2", DB: "d2", RP: "rp1", Pred: "a"}}},
 }
 
 // Script renders the TICKscript of a shape for task id: one
@@ -78,6 +101,9 @@ func (s Shape) Script(id string) string {
 			b.WriteString("        .groupBy('tag')\n")
 		}
 		fmt.Fprintf(&b, "    |log()\n        .prefix('%s/%d')\n", id, k+1)
+		if s.Dies && k == 0 {
+			fmt.Fprintf(&b, "    |httpOut('%s')\n", dieEndpoint)
+		}
 	}
 	return b.String()
 }
@@ -92,7 +118,7 @@ func (s Shape) Enc() rt.M {
 	for _, f := range s.Froms {
 		froms = append(froms, rt.M{"meas": f.Meas, "db": f.DB, "rp": f.RP, "pred": f.Pred, "gb": f.GB})
 	}
-	return rt.M{"dbrps": dbrps, "froms": froms}
+	return rt.M{"dbrps": dbrps, "froms": froms, "dies": s.Dies}
 }
 
 // Pt is one point of a write call (measurement and tag value).
@@ -106,6 +132,9 @@ type Op struct {
 	RP   string // write: the rp ARGUMENT ("" = let the TaskMaster use its default)
 	Pts  []Pt
 	HTTP bool // write through the real httpd.Handler (/write, line protocol)
+	// Enc (HTTP only): "" = plain body with Content-Length, "gzip" = gzip body with
+	// Content-Length, "chunked" = plain body of unknown length, "gzip-chunked"
+	Enc  string
 	Sync bool // write: wait until everything written so far has been forked
 }
 
@@ -117,7 +146,7 @@ func (o Op) key() string {
 			s += "," + p.Meas + p.Tag
 		}
 		if o.HTTP {
-			s += ";h"
+			s += ";h" + o.Enc
 		}
 		if o.Sync {
 			s += ";s"
